@@ -330,6 +330,32 @@ static void main_case(int mode) {
       }
 #endif
       lp_feasibility_set_delete(s);
+    } else if (chance(45)) {
+      /* root constraint evaluated with the main variable assigned: at the roots, between them, outside, and at random values;
+         every condition and root indices up to one past the degree (not enough roots => false) */
+      size_t d = lp_polynomial_degree(p), n = 0;
+      lp_value_t* roots = (lp_value_t*)malloc((d + 1) * sizeof(lp_value_t));
+      lp_polynomial_roots_isolate(p, M, roots, &n);
+      lp_value_t ys[24]; int ny = 0;
+      for (size_t i = 0; i < n && ny < 8; ++i) lp_value_construct_copy(&ys[ny++], &roots[i]);
+      for (size_t i = 0; i + 1 < n && ny < 14; ++i) { lp_value_construct_none(&ys[ny]); lp_value_get_value_between(&roots[i], 1, &roots[i + 1], 1, &ys[ny]); ++ny; }
+      if (n) { lp_value_t inf; lp_value_construct(&inf, LP_VALUE_MINUS_INFINITY, 0); lp_value_construct_none(&ys[ny]); lp_value_get_value_between(&inf, 1, &roots[0], 1, &ys[ny]); ++ny; lp_value_destruct(&inf);
+               lp_value_construct(&inf, LP_VALUE_PLUS_INFINITY, 0); lp_value_construct_none(&ys[ny]); lp_value_get_value_between(&roots[n - 1], 1, &inf, 1, &ys[ny]); ++ny; lp_value_destruct(&inf); }
+      val_random(&ys[ny++]); val_rat(&ys[ny++], rnd_in(-4, 4), 1 + rnd(3));
+      for (size_t i = 0; i < n; ++i) lp_value_destruct(&roots[i]);
+      free(roots);
+      for (int i = 0; i < ny; ++i) {
+        int reps = 1 + rnd(3);
+        for (int r = 0; r < reps; ++r) {
+          size_t k = rnd(d + 2); int c = rnd(6);
+          sb_begin("ev", "rcons"); sb_sp(); sb_poly(p); sb_sp(); sb_ulong(k); sb_sp(); sb_long(c); sb_sp(); sb_asg(); sb_sp(); sb_val(&ys[i]); sb_arrow();
+          lp_assignment_set_value(M, hp_x[3], &ys[i]);
+          int b = lp_polynomial_root_constraint_evaluate(p, k, (lp_sign_condition_t)c, M);
+          lp_assignment_set_value(M, hp_x[3], 0);
+          sb_sp(); sb_long(b); sb_emit();
+        }
+      }
+      for (int i = 0; i < ny; ++i) lp_value_destruct(&ys[i]);
     } else {
       size_t k = rnd(lp_polynomial_degree(p) + 2);
       sb_begin("ev", "rfs"); sb_sp(); sb_poly(p); sb_sp(); sb_ulong(k); sb_sp(); sb_long(cond); sb_sp(); sb_long(neg); sb_sp(); sb_asg(); sb_arrow();
@@ -354,6 +380,7 @@ static void one_case(void) {
   set_vals();
   lp_polynomial_t* p = build_poly(T, kind);
   lp_polynomial_set_external(p);      /* re-ordered automatically when the variable order changes */
+  sb_reset(); sb_asg(); char* asg_before = strdup(sb_buf);
   int reversed = chance(20); if (getenv("LPV_NOREV")) reversed = 0; if (getenv("LPV_SHOWREV")) fprintf(stderr, "reversed=%d\n", reversed);
   unsigned op = rnd(100);
   if (op < 45) {
@@ -371,6 +398,9 @@ static void one_case(void) {
     int b = lp_polynomial_constraint_evaluate(p, (lp_sign_condition_t)cond, M);
     sb_sp(); sb_long(b); sb_emit();
   }
+  /* the query must leave the caller's assignment as it was: the same numbers, well-formed (refinement is allowed) */
+  sb_begin("ev", "keep"); sb_sp(); sb_str(asg_before); sb_arrow(); sb_sp(); sb_asg(); sb_emit();
+  free(asg_before);
   lp_polynomial_delete(p);
   lp_assignment_delete(M);
   for (int i = 0; i < nvals; ++i) lp_value_destruct(&vals[i]);
